@@ -180,7 +180,7 @@ LAST_STRETCH = {
  'C10': 'RecordArray::field / fieldindex / haskey by key with util::fieldindex: a key is the field of that name, else the position it spells exactly ("0", "1", ...), else std::invalid_argument (haskey: false, never raises) - '
         'keys with a numeric prefix, sign, blank, leading zero, beyond int, empty, and fields named by digits.',
  'C11': 'ListOffsetArray64::validityerror with the offsets a window into a longer buffer: the rule kernel (decided on its own above) is handed the window\'s starts and stops, the list count and the content length; '
-        'otherwise the content\'s answer is returned.',
+        'otherwise the content\'s answer is returned. getitem_next_missing_jagged (a jagged slice with None lists, the content answering opaque or with a real IndexedOptionArray64): spans per entry, None where either has None, no option node directly inside another.',
  'C19': 'Every paused program template additionally with a word call()ed between each pause and its resume (same final state as the uninterrupted run); ForthOutputBuffer::rewind for every 64-bit count.',
 }
 for k_, v_ in LAST_STRETCH.items():
